@@ -583,7 +583,7 @@ pub fn child_main() {
         libc::prctl(libc::PR_SET_PDEATHSIG, libc::SIGKILL);
     }
     // compile std before serving requests and announce readiness
-    with_fastc(120, |_| ());
+    with_fastc(400, |_| ());
     {
         let so = std::io::stdout();
         let mut so = so.lock();
@@ -608,7 +608,7 @@ pub fn child_main() {
         let src = String::from_utf8_lossy(&buf).to_string();
         if mode[0] == b'T' {
             // front end only
-            let ok = with_fastc(120, |fc| catch(|| fc.typed(&src).is_ok())).unwrap_or(false);
+            let ok = with_fastc(400, |fc| catch(|| fc.typed(&src).is_ok())).unwrap_or(false);
             let line = format!("{MARK}{}\n", json!({"typed": ok}));
             let so = std::io::stdout();
             let mut so = so.lock();
@@ -618,7 +618,7 @@ pub fn child_main() {
         }
         let mut outs = vec![json!({"kind": "skipped"}), json!({"kind": "skipped"})];
         for (i, opt) in [OptLevel::Opt0, OptLevel::Opt1].into_iter().enumerate() {
-            let r = with_fastc(120, |fc| catch(|| fc.compile(&src, opt)));
+            let r = with_fastc(400, |fc| catch(|| fc.compile(&src, opt)));
             let fail = match r {
                 Ok(Ok(_)) => {
                     outs[i] = json!({"kind": "bytecode"});
